@@ -37,11 +37,30 @@ class Sched:
         ev['step'] = self.steps
         self.events.append(ev)
 
+    def trace_lines(self, wanted):
+        """Also yield at every source LINE of the functions `wanted(code)` accepts (sys.settrace in the spawned
+        threads): finds races inside regions that should be, but are not, protected by a lock - lock-operation
+        granularity alone treats everything between two lock operations as atomic."""
+        self._line_filter = wanted
+
+    def _tracer(self, frame, event, arg):
+        if event != 'call' or not self._line_filter(frame.f_code):
+            return None
+
+        def local(frame, event, arg):
+            if event == 'line':
+                self.yield_('line')
+            return local
+        return local
+
     def spawn(self, name, fn):
         def run():
             with self.cv:
                 while self.cur != name:
                     self.cv.wait()
+            if getattr(self, '_line_filter', None) is not None:
+                import sys
+                sys.settrace(self._tracer)
             try:
                 fn()
             except Deadlock:
